@@ -43,7 +43,13 @@ def table_seeded():
         tier = "quick" if det.get("quick_exit") == 1 else ("thorough" if det.get("thorough_exit") == 1 else "**missed**")
         sig = ", ".join(det.get("signatures", [])[:3])
         need = re.sub(r"\s+", " ", str(m.get("needs_to_manifest", "")))[:160].replace("|", "/")
-        files = ", ".join(m.get("files_changed", []))[:60]
+        fl = m.get("files_changed") or []
+        if not fl:
+            try:
+                fl = sorted(set(re.findall(r"^\+\+\+ b/(\S+)", open(os.path.join(d, "patch.diff")).read(), re.M)))
+            except OSError:
+                fl = []
+        files = ", ".join(fl)[:60]
         print("| %s | %s | %s | %s | %s: %s |" % (os.path.basename(d), files, need, "yes" if valid else "no (%s/%s/%s)" % (c.get("demo_exit_unchanged_tree"), c.get("demo_exit_changed_tree"), c.get("make_test_with_change", {}).get("scenarios_failed")), tier, sig))
 
 
